@@ -59,7 +59,7 @@ CLAIM = {
             'exactly Apply(mode, previous, Sat) in every repetition and permutation, create_mesh / create_from_indices return '
             'exactly the selected triangles (coordinates and winding, as a bag), every vertex used and none added. Seeded random '
             'lattice scenes (height fields vs random rectangles, exact verdicts) and general-position scenes (up to 200 faces vs '
-            'a second height field, arbitrary angles; judged against the per-face answers of the library itself) extend sizes. References with a crease (a plate with a perpendicular wall hanging from one edge) exercise the nearest-part rule of the near criterion for faces draped over the crease.',
+            'a second height field, arbitrary angles; judged against the per-face answers of the library itself) extend sizes. References with a crease (a plate with a perpendicular wall hanging from one edge) exercise the nearest-part rule of the near criterion for faces draped over the crease. Start lists may name a face more than once; a fifth of the lattice scenes carry a zero-area face, which satisfies no facing criterion.',
     'design_ref': 'DESIGN.md section 6 C14',
     'note': 'Trusted: TLC; harness projection; hash orders of the real code are sampled, the model covers all; exact verdicts '
             'only for axis-aligned rectangular references and lattice angles - for other references the predicate value itself '
